@@ -345,4 +345,8 @@ private def exD : D := { buf := [0, 12, 0, 2, 0, 0, 255, 255], off := 0, lim := 
 example : D.Ok exD := ⟨by decide, by decide, by simp [exD]⟩
 example : decOptions 7 exD = .ok ([.padding 2], { exD with off := 6, cost := 8 }) := rfl
 
+/-- the hypothesis `0 < k * c` of `hints_post` is necessary: a hint of zero octets makes no progress and
+the loop is stopped by the fuel (the model only calls `D.hints _ 1 4` and `D.hints _ 8 2`) -/
+example : D.hints 3 0 4 { buf := [0], off := 0, lim := 1 } = .error .fuel := rfl
+
 end Safe
